@@ -54,6 +54,9 @@ def systems(tier):
     # several restraints on one molecule whose paths overlap, in both orders of definition; with a cycle / persistence restraint
     for a, b in (((0, 2, 1.0, 0.3), (0, 5, 1.5, 0.3)), ((0, 5, 1.5, 0.3), (0, 2, 1.0, 0.3)), ((0, 3, 1.5, 0.3), (0, 5, 1.0, 0.3))):
         out.append(dict(types=["CH6"], molecules=[("CH6", 1)], box=BOX, grid=GRID, dist=[a, b], kwargs=dict(nrewind=3, maxiter=4)))
+    # a restraint with a wide tolerance followed by restraints without the tolerance column
+    out.append(dict(types=["CH6"], molecules=[("CH6", 1)], box=BOX, grid=GRID, dist=[(0, 2, 1.0, 0.9), (0, 5, 0.5, 0.0)], kwargs=dict(nrewind=3, maxiter=4)))
+    out.append(dict(types=["CH6"], molecules=[("CH6", 1)], box=BOX, grid=GRID, dist=[(0, 1, 0.5, 1.5), (1, 5, 1.0, 0.0), (0, 3, 0.5, 0.0)], kwargs=dict(nrewind=3, maxiter=4)))
     out.append(dict(types=["CH6"], molecules=[("CH6", 1)], box=BOX, grid=GRID, pers=dict(lp=1.0, start=0, stop=5), dist=[(0, 2, 1.0, 0.0)],
                     kwargs=dict(nrewind=3, maxiter=4)))
     # combinations of restraint kinds on one molecule
@@ -134,7 +137,8 @@ def render_extra(sysd):
     if sysd.get("dist"):
         lines.append("[ distance_restraints ]")
         for a, b, d, tol in sysd["dist"]:
-            lines.append(f"{a} {b} {d} {tol}")
+            # the tolerance column is optional: a restraint without tolerance is written without it
+            lines.append(f"{a} {b} {d} {tol}" if tol else f"{a} {b} {d}")
     if sysd.get("pers"):
         p = sysd["pers"]
         lines += ["[ persistence_length ]", f"WCM {p['lp']} {p['start']} {p['stop']}"]
